@@ -42,6 +42,9 @@ class Canary(str):
     def format(self, *a, **k):
         LOG.append("format"); return "F"
 
+    def gettypename(self, *a, **k):
+        LOG.append("gettypename"); return "string"
+
     def encode(self, *a, **k):
         LOG.append("encode"); return b"E"
 
@@ -54,8 +57,31 @@ class Canary(str):
         return SHARED_LIST
 
     @property
+    def o(self):
+        return ObjCanary()
+
+    @property
     def ipaddress(self):
         return CallableCanary("ip")
+
+
+class ObjCanary:
+    """a record value that is NOT text: every method call is logged"""
+
+    def __getattr__(self, name):
+        if name.startswith("__"):
+            raise AttributeError(name)
+
+        def method(*a, **k):
+            LOG.append("obj." + name)
+            return "O"
+        return method
+
+    def __eq__(self, other):
+        return False
+
+    def __hash__(self):
+        return 1
 
 
 class CallableCanary(Canary):
@@ -68,8 +94,8 @@ class CallableCanary(Canary):
 HELPERS = ["lower", "upper"]
 NAMES = ["r", "net", "f", "string"] + HELPERS + ["len", "open"]
 GENFLAGS = ["none", "f", "string", "f_op", "net_val"]
-ATTRS = ["strip", "upper", "__class__", "__x", "s", "ipaddress", "fl"]
-CONTEXTS = ["bare", "arg", "operand", "listelt", "genelt", "geniter", "gencond", "kwarg", "not", "boolop", "add_list", "mult", "bitor", "helper_strings", "helper_fields", "primed"]
+ATTRS = ["strip", "upper", "__class__", "__x", "s", "ipaddress", "fl", "o"]
+CONTEXTS = ["bare", "arg", "operand", "listelt", "genelt", "geniter", "gencond", "kwarg", "not", "boolop", "add_list", "mult", "bitor", "helper_strings", "helper_fields", "primed", "fields_arg", "fields_kwarg"]
 
 
 def targets():
@@ -105,6 +131,7 @@ def render(t, g, ctx):
         "add_list": f"({X} + ['y']) == 1", "mult": f"({X} * 2) == 1", "bitor": f"({X} | 1) == 1",
         "helper_strings": f"field_equals(r, ['c'], {X})", "helper_fields": f"field_contains(r, {X}, ['zz'])",
         "primed": f"{X} == 1",
+        "fields_arg": f"any(f.name == 'x' for f in fields({X}))", "fields_kwarg": f"any(f.name == 'x' for f in fields(typename={X}))",
     }[ctx]
     if g == "f_op":
         e = f"1 in ({e} for f in [r.c.strip])"
@@ -130,6 +157,7 @@ def run_shape(src, D, entry="match"):
     fl = SHARED_LIST
     object.__setattr__(rec, "c", can)
     object.__setattr__(rec, "fl", fl)
+    object.__setattr__(rec, "o", ObjCanary())
     for k in ("_source", "_classification", "_generated", "_version"):
         object.__setattr__(rec, k, None)
     try:
@@ -159,7 +187,7 @@ def run(tier):
         ctx.sensitivity("Policy", "MC_Policy_dev_Shadow.cfg", "generator variable named like a field type must violate OnlyWhitelistedInvoked", "OnlyWhitelistedInvoked", workers=4)
     # the grammar's partition of Python's expression nodes: every ast.expr subclass is either handled by the
     # shapes/contexts above or must be refused syntactically -- assert the refused set really is refused
-    D = RecordDescriptor("t/c9", [("string", "c"), ("stringlist", "fl")])
+    D = RecordDescriptor("t/c9", [("string", "c"), ("stringlist", "fl"), ("string", "o")])
     refused_syntax = {"Lambda": "(lambda: 1)() == 1", "Subscript": "r.fl[0] == 'x'", "IfExp": "(1 if r.c else 2) == 1", "Dict": "{1: 2} == 1", "Set": "{1} == 1",
                       "ListComp": "[x for x in r.fl] == 1", "SetComp": "{x for x in r.fl} == 1", "DictComp": "{x: 1 for x in r.fl} == 1", "JoinedStr": "f'{r.c}' == 1",
                       "NamedExpr": "(y := 1) == 1", "Starred": "[*r.fl] == 1", "Await": None, "Yield": None, "YieldFrom": None, "FormattedValue": None, "Slice": "r.fl[0:1] == 1",
